@@ -638,12 +638,34 @@ def rule_decimal_arguments(prog, fixture=False):
     return r
 
 
+# ---------------------------------------------------------------- R-C04-9
+def rule_surface_keeps_its_device(prog, fixture=False):
+    from . import c16
+    r = RuleResult("R-C04-9", "every surface of an image is attached together with the device that reads it: where the "
+                   "images hand their surfaces to the drive table, each entry is a DriveConfig built on that surface "
+                   "(an entry without configuration has no device, and the sectors of a surface without a recognised "
+                   "file system - the blank second side of a disc, say - could no longer be read by dump-sector)",
+                   floor=0 if fixture else 3)
+    for fn, n in c16._empty_entry_producers(prog):
+        r.add("%s::%s::empty-entry" % (fn.relfile(), fn.qn), fn.loc(n), False,
+              "`%s` attaches a surface without its device" % show(n)[:60])
+    for fn in prog.functions.values():
+        for n in fn.walk():
+            if n.get("k") in ("CXXConstructExpr", "CXXTemporaryObjectExpr") and notpl(n.get("cls") or "").split("::")[-1] == "DriveConfig" \
+                    and len(n.get("c", [])) == 2 and fn.name != "DriveConfig":
+                dev = strip_all(n["c"][1])
+                ok = dev is not None and not (folded(n["c"][1]) == 0 or dev.get("null"))
+                r.add("%s::%s::DriveConfig#%d" % (fn.relfile(), fn.qn, len(r.instances) + 1), fn.loc(n), ok,
+                      "built on `%s`" % show(dev)[:30] if ok else "DriveConfig built with a null device")
+    return r
+
+
 def run(ctx):
     prog = ctx.prog("dfs", "N")
     root = ctx.root or facts.REPO
     return [rule_fileview_bound(prog), rule_short_block(prog), rule_mmb_table(prog, root), rule_slot_position(prog),
             rule_view_shapes(prog), rule_stride_formula(prog), rule_every_slot_visited(prog),
-            rule_decimal_arguments(prog)]
+            rule_decimal_arguments(prog), rule_surface_keeps_its_device(prog)]
 
 
 SELFTESTS = [
